@@ -76,6 +76,8 @@ def handle (j : J) : J :=
           ("ne", matrix vals fun x y => .bool (ne x y)),
           ("lt", matrix vals fun x y => resToJ (symLt env x y)),
           ("gt", matrix vals fun x y => resToJ (symGt env x y)),
+          -- the literal transcription of `base.lt` (keys sorted when the dict branch is reached)
+          ("lt_direct", matrix vals fun x y => resToJ (ltDirect env x y)),
           ("hash", .arr (vals.map fun x => match hashTerm x with
                                             | .ok t => termToJ t
                                             | .error e => errToJ e))]
